@@ -99,6 +99,15 @@ inline Args parse_args( int argc, char** argv )
 template <class F> auto header_extra_of( F const& f, int ) -> decltype( f.header_extra()) { return f.header_extra(); }
 template <class F> std::string header_extra_of( F const&, long ) { return std::string(); }
 
+// optional Fixture::thread_attach( tid ) / thread_detach( tid ): per-thread set-up that must exist before the first
+// scheduled step and last until every thread has finished (see run_case: prologue / epilogue)
+template <class F> auto thread_attach_of( F& f, int t, int ) -> decltype( f.thread_attach( t )) { return f.thread_attach( t ); }
+template <class F> void thread_attach_of( F&, int, long ) {}
+template <class F> auto thread_detach_of( F& f, int t, int ) -> decltype( f.thread_detach( t )) { return f.thread_detach( t ); }
+template <class F> void thread_detach_of( F&, int, long ) {}
+template <class F> auto has_thread_attach( F& f, int ) -> decltype( f.thread_attach( 0 ), true ) { return true; }
+template <class F> bool has_thread_attach( F&, long ) { return false; }
+
 template <class Fixture>
 struct Runner {
     Args args;
@@ -179,7 +188,12 @@ struct Runner {
             _exit( 40 + int( st ));
         };
 
-        run_case( n, body, sc, on_abort );
+        std::function<void( int )> pro, epi;
+        if ( has_thread_attach( fx, 0 )) {
+            pro = [&]( int tid ) { thread_attach_of( fx, tid, 0 ); };
+            epi = [&]( int tid ) { thread_detach_of( fx, tid, 0 ); };
+        }
+        run_case( n, body, sc, on_abort, pro, epi );
         std::ostringstream extra;
         fx.finish( extra );
         emit( "ok" );
